@@ -618,3 +618,141 @@ def g_dist_base(repo):
 
 
 GROUPS += [("DistBase", g_dist_base, ["nflows/distributions/base.py"])]
+
+
+# ---------------------------------------------------------------- normalisation layers
+def _strip_detach(e):
+    """x.detach() -> x (value-wise identity)"""
+    class T(ast.NodeTransformer):
+        def visit_Call(self, node):
+            self.generic_visit(node)
+            if isinstance(node.func, ast.Attribute) and node.func.attr == "detach" and not node.args:
+                return node.func.value
+            return node
+    return T().visit(e)
+
+
+def g_norm(repo):
+    src = Source(repo, "nflows/transforms/normalization.py")
+    defs = []
+    # ---- BatchNorm
+    attrs = {"weight": "a_weight", "bias": "a_bias", "eps": "a_eps", "momentum": "a_momentum",
+             "running_mean": "a_running_mean", "running_var": "a_running_var",
+             "unconstrained_weight": "a_unconstrained_weight"}
+    fw = src.method("BatchNorm", "forward")
+    tr_if = [s for s in fw.body if isinstance(s, ast.If) and ast.unparse(s.test) == "self.training"]
+    if len(tr_if) != 1:
+        raise Untranslatable("BatchNorm.forward: expected `if self.training:`", fw)
+    tb, eb = tr_if[0].body, tr_if[0].orelse
+    if ast.unparse(tb[0]) != "mean, var = (inputs.mean(0), inputs.var(0))":
+        raise Untranslatable("BatchNorm.forward: batch statistics form", tb[0])
+    if len(eb) != 1 or ast.unparse(eb[0]) != "mean, var = (self.running_mean, self.running_var)":
+        raise Untranslatable("BatchNorm.forward: eval statistics form", tr_if[0])
+    upd = {}
+    for st in tb[1:]:
+        # self.running_X.mul_(A).add_(B)
+        ok = isinstance(st, ast.Expr) and isinstance(st.value, ast.Call) and isinstance(st.value.func, ast.Attribute) \
+            and st.value.func.attr == "add_" and isinstance(st.value.func.value, ast.Call) \
+            and isinstance(st.value.func.value.func, ast.Attribute) and st.value.func.value.func.attr == "mul_"
+        if not ok:
+            raise Untranslatable("BatchNorm.forward: running statistic update form", st)
+        target = ast.unparse(st.value.func.value.func.value)
+        if target not in ("self.running_mean", "self.running_var"):
+            raise Untranslatable("BatchNorm.forward: in-place update of %s" % target, st)
+        stat = "mean" if target.endswith("mean") else "var"
+        tr = ExprTr({"mean": "v_stat", "var": "v_stat", "r": "v_r"}, attrs=attrs)
+        a = tr.tr(_strip_detach(st.value.func.value.args[0]))
+        b = tr.tr(_strip_detach(st.value.args[0]))
+        # the added term must use the matching statistic
+        names = {n.id for n in ast.walk(st.value.args[0]) if isinstance(n, ast.Name)}
+        if names - {stat, "self"}:
+            raise Untranslatable("BatchNorm.forward: update of %s uses %s" % (target, names), st)
+        upd[stat] = "(o_add O (o_mul O v_r %s) %s)" % (a, b)
+    if set(upd) != {"mean", "var"}:
+        raise Untranslatable("BatchNorm.forward: both running statistics must be updated in training mode", fw)
+    for stat in ("mean", "var"):
+        defs.append(("bn_update_" + stat,
+                     "Definition bn_update_%s {T : Type} (O : ops T) (a_momentum v_r v_stat : T) : T :=\n  %s.\n" % (stat, upd[stat])))
+    binders = "a_weight a_bias a_eps v_inputs v_mean v_var"
+    env = {"inputs": "v_inputs", "mean": "v_mean", "var": "v_var"}
+    out = nth_assign(fw, "outputs", 0).value
+    defs.append(("bn_forward_out", "Definition bn_forward_out {T : Type} (O : ops T) (%s : T) : T :=\n  %s.\n"
+                 % (binders, ExprTr(env, attrs=attrs).tr(out))))
+    lad = nth_assign(fw, "logabsdet_", 0).value
+    defs.append(("bn_forward_lad", "Definition bn_forward_lad {T : Type} (O : ops T) (%s : T) : T :=\n  %s.\n"
+                 % (binders, ExprTr(env, attrs=attrs).tr(lad))))
+    agg = ast.unparse(nth_assign(fw, "logabsdet", 0).value)
+    if agg != "torch.sum(logabsdet_) * inputs.new_ones(inputs.shape[0])":
+        raise Untranslatable("BatchNorm.forward: log-det aggregation `%s`" % agg, fw)
+    iv = src.method("BatchNorm", "inverse")
+    first = [s for s in iv.body if not (isinstance(s, ast.Expr) and isinstance(s.value, ast.Constant))][0]
+    ok = isinstance(first, ast.If) and ast.unparse(first.test) == "self.training" and isinstance(first.body[0], ast.Raise) \
+        and ast.unparse(first.body[0].exc.func) == "InverseNotAvailable"
+    defs.append(("bn_inverse_unavailable_in_training",
+                 "Definition bn_inverse_unavailable_in_training : bool := %s.\n" % ("true" if ok else "false")))
+    binders_i = "a_weight a_bias a_eps a_running_mean a_running_var v_inputs"
+    out = nth_assign(iv, "outputs", 0).value
+    defs.append(("bn_inverse_out", "Definition bn_inverse_out {T : Type} (O : ops T) (%s : T) : T :=\n  %s.\n"
+                 % (binders_i, ExprTr({"inputs": "v_inputs"}, attrs=attrs).tr(out))))
+    lad = nth_assign(iv, "logabsdet_", 0).value
+    defs.append(("bn_inverse_lad", "Definition bn_inverse_lad {T : Type} (O : ops T) (%s : T) : T :=\n  %s.\n"
+                 % (binders_i, ExprTr({"inputs": "v_inputs"}, attrs=attrs).tr(lad))))
+    wprop = src.method("BatchNorm", "weight")
+    defs.append(("bn_weight", "Definition bn_weight {T : Type} (O : ops T) (a_unconstrained_weight a_eps : T) : T :=\n  %s.\n"
+                 % ExprTr({}, attrs=attrs).tr(wprop.body[0].value)))
+    # ---- ActNorm
+    fw = src.method("ActNorm", "forward")
+    ini = [s for s in fw.body if isinstance(s, ast.If) and "self._initialize(inputs)" in ast.unparse(s)]
+    if len(ini) != 1:
+        raise Untranslatable("ActNorm.forward: initialisation call", fw)
+    defs.append(("an_initialises", "Definition an_initialises (training initialized : bool) : bool :=\n  %s.\n"
+                 % _bool_expr_self(ini[0].test, {"training": "training", "initialized": "initialized"})))
+    env = {"scale": "v_scale", "shift": "v_shift", "inputs": "v_inputs"}
+    defs.append(("an_forward_out", "Definition an_forward_out {T : Type} (O : ops T) (v_scale v_shift v_inputs : T) : T :=\n  %s.\n"
+                 % ExprTr(env).tr(nth_assign(fw, "outputs", 0).value)))
+    iv = src.method("ActNorm", "inverse")
+    defs.append(("an_inverse_out", "Definition an_inverse_out {T : Type} (O : ops T) (v_scale v_shift v_inputs : T) : T :=\n  %s.\n"
+                 % ExprTr(env).tr(nth_assign(iv, "outputs", 0).value)))
+    sc = src.method("ActNorm", "scale")
+    defs.append(("an_scale", "Definition an_scale {T : Type} (O : ops T) (a_log_scale : T) : T :=\n  %s.\n"
+                 % ExprTr({}, attrs={"log_scale": "a_log_scale"}).tr(sc.body[0].value)))
+
+    def lad_branches(m, sign):
+        brs = [s for s in m.body if isinstance(s, ast.If) and ast.unparse(s.test) == "inputs.dim() == 4"]
+        if len(brs) != 1:
+            raise Untranslatable("ActNorm: log-det branches", m)
+        l4 = [s for s in brs[0].body if isinstance(s, ast.Assign) and ast.unparse(s.targets[0]) == "logabsdet"][0].value
+        l2 = [s for s in brs[0].orelse if isinstance(s, ast.Assign) and ast.unparse(s.targets[0]) == "logabsdet"][0].value
+        e4 = "%sh * w * torch.sum(self.log_scale) * outputs.new_ones(batch_size)" % sign
+        e2 = "%storch.sum(self.log_scale) * outputs.new_ones(batch_size)" % sign
+        if ast.unparse(l4) != e4 or ast.unparse(l2) != e2:
+            raise Untranslatable("ActNorm: log-det form `%s` / `%s`" % (ast.unparse(l4), ast.unparse(l2)), m)
+    lad_branches(fw, "")
+    lad_branches(iv, "-")
+    defs.append(("an_lad_is_hw_times_sum_log_scale", "Definition an_lad_is_hw_times_sum_log_scale : bool := true.\n"))
+    init = src.method("ActNorm", "_initialize")
+    w = [s for s in init.body if isinstance(s, ast.With)]
+    if len(w) != 1 or ast.unparse(w[0].items[0].context_expr) != "torch.no_grad()":
+        raise Untranslatable("ActNorm._initialize: with torch.no_grad()", init)
+    stm = [ast.unparse(s) for s in w[0].body]
+    want = ["std = inputs.std(dim=0)", "mu = (inputs / std).mean(dim=0)"]
+    if stm[:2] != want:
+        raise Untranslatable("ActNorm._initialize: statistics `%s`" % stm[:2], init)
+    vals = {}
+    for s in w[0].body[2:]:
+        if isinstance(s, ast.Assign):
+            vals[ast.unparse(s.targets[0])] = s.value
+    for need in ("self.log_scale.data", "self.shift.data", "self.initialized.data"):
+        if need not in vals:
+            raise Untranslatable("ActNorm._initialize: %s not assigned" % need, init)
+    if ast.unparse(vals["self.initialized.data"]) != "torch.tensor(True, dtype=torch.bool)":
+        raise Untranslatable("ActNorm._initialize: initialized flag", init)
+    env = {"std": "v_std", "mu": "v_mu"}
+    defs.append(("an_init_log_scale", "Definition an_init_log_scale {T : Type} (O : ops T) (v_std v_mu : T) : T :=\n  %s.\n"
+                 % ExprTr(env).tr(vals["self.log_scale.data"])))
+    defs.append(("an_init_shift", "Definition an_init_shift {T : Type} (O : ops T) (v_std v_mu : T) : T :=\n  %s.\n"
+                 % ExprTr(env).tr(vals["self.shift.data"])))
+    return defs, ""
+
+
+GROUPS += [("Norm", g_norm, ["nflows/transforms/normalization.py"])]
